@@ -142,7 +142,7 @@ func runC03(w *World, r *Report) {
 			for owner.Parent() != nil {
 				owner = owner.Parent()
 			}
-			n := owner.Name()
+			n := refName(owner)
 			r.check(n == "saveTrxInVertex" || n == "removeTrxInVertex", "index-writers", shortFn(fn), lineOf(w, u), "only the two index helpers write the transaction index", "unexpected writer")
 		}
 	}
